@@ -18,15 +18,22 @@ PROPS["C04"]["level_text"] = PROPS["C04"]["level_text"].replace(
     "input byte supplied so far, does not error and does not wait for ISLAST (reader_needs_more_at_boundary), and continues from the same state when more bytes arrive (reader_resumes). "
     "sync_block_read_by_stream_reader — the padding block behind any carry lbb, at any bit position = lbb mod 8, is one complete non-last meta-block for that reader that leaves output and "
     "distance ring untouched and ends on a byte boundary; metadata_does_not_change_yield — deleting all sync / metadata-header / metadata-body events from a log changes neither the positions "
-    "nor the number of input bytes covered. On the real code the same statement is checked by the decoders at every completed flush and metadata block.")
+    "nor the number of input bytes covered. "
+    "Histories WITH metadata, only the payload assumed: run_factsX (BV/Lemmas/StreamRunMd.lean) adds to the log of every history, proved atom by atom from the guards of the step relation (step_md, 19 cases) "
+    "and lifted over calls, take_output and set_parameter: ALIGNMENT (every sync block `pad lbb` and metadata header `mdHeader n lbb` sits at a bit offset = lbb mod 8, lbb = the carry, incl. the 14-bit "
+    "large-window header) and GROUPING (a metadata header for n <= 2^24 bytes is followed by body chunks totalling exactly n bytes before any other bit-carrying event; nothing is open after a completed flush). "
+    "pad_readMetaBlock / md_block_readMetaBlock (BV/Lemmas/StreamRunMdRead.lean): under the independent RFC 9.2 reader the sync block behind ANY carry and a WHOLE metadata block (header for every n <= 2^24, "
+    "zero fill, n payload bytes) at every such position are read as metadata with no content, ending byte aligned. body_blocks + flush_prefix_read_by_stream_reader_md: for every history that ends with a completed "
+    "flush in state PROCESSING, if the header is read as (lgwin, large) and the PAYLOAD-ENCODER events (enc, fast) decode in the reader's sense (PayloadDecode(DecRd): nothing is asked of sync blocks, metadata headers "
+    "or bodies), the streaming reader fed exactly the delivered bytes answers needMore(input.take covered), and covered = input_pos_ without one-shot blocks. "
+    "On the real code the same statement is checked by the decoders at every completed flush and metadata block.")
 
 PROPS["C04"]["level_note"] = PROPS["C04"]["level_note"].replace(
     "Partial: decodability of compressed meta-blocks is the payload encoder (hypothesis MetaBlockDecodes of C01), not proved.",
     "What is left of the decode half is ONE hypothesis, PiecesOK.pieces of C01 (every emitted piece decodes to the input range it covers): for payload pieces that is the payload encoder "
-    "(C01MetaBlock / C01Chain / C01Fragment prove it per writer under their own hypotheses; their instantiation to DecRd is not done here); for the pieces the state machine writes itself it is a format fact "
-    "— proved here against the streaming reader for the sync block (sync_block_read_by_stream_reader, alignment pos = lbb mod 8 assumed, not derived from the run), by C04 metadata_header_inverse "
-    "against the OTHER independent reader (Spec.parseMetadataBlock) for metadata headers; a metadata block is several log events (header, body chunks), so per-event PiecesOK with DecRd is only satisfiable "
-    "for histories whose metadata events are grouped by the caller of the theorem (the abstract-Dec theorem flush_prefix_decodes_run has no such restriction). The header hypothesis of "
+    "(C01MetaBlock / C01Chain / C01Fragment prove it per writer under their own hypotheses; their instantiation to DecRd is not done here); for the pieces the state machine writes itself (sync blocks, metadata headers and bodies) it is PROVED "
+    "against the streaming reader, with alignment and grouping derived from the run (run_factsX): flush_prefix_read_by_stream_reader_md assumes PayloadDecode only (the per-event PiecesOK form of "
+    "flush_prefix_read_by_stream_reader stays for histories without metadata). The skeleton bits an `enc` event writes itself (magic-number metadata block, stored catable prelude) are part of that event's bits and so of its payload hypothesis. The header hypothesis of "
     "flush_prefix_read_by_stream_reader (the window event's bits are read by the RFC 9.1 reader as (lgwin, large)) is C15 declared_window for the header model; the identification of the stream "
     "model's header bits with the header model's is by correspondence (both tied to the real encoder), not a Lean theorem. The streaming reader reports `stuck` both for malformed input and for "
     "a cut inside a meta-block. One-shot (quality 0/1 fast path) blocks: flush_call_flushed excludes fastMode, the reader theorems assume no `fast` event.")
